@@ -25,8 +25,16 @@ class Spec(simcheck.SimSpec):
                 {'label': 'second-graph-same-backend', 'family': 'well',
                  'second_graph': True}]
     rule = ('one evaluation = one simulated execution of Scheduler.schedule() '
-            'on a seeded acyclic hard/soft graph of <= 9 probe tasks with '
-            'scripted outcomes, 1-5 workers, under a seeded policy (random '
+            'on a seeded acyclic hard/soft graph of <= 9 probe tasks (handed '
+            'over node by node, as dependency dictionaries, through the '
+            'tasks\' dependency sets or with an embedded, possibly empty, '
+            'sub-graph node; node order and hashes are a seeded permutation) '
+            'with scripted outcomes (success, exceptions incl. SystemExit and '
+            'other BaseExceptions, FAILED, malformed results, updates that '
+            'cannot be merged or carry a status), 1-5 workers or the default '
+            'backend, optionally a second call by a new Scheduler on the same '
+            'backend, a Scheduler built twice from one graph, a second master '
+            'in another thread, under a seeded policy (random '
             'walk / PCT / stall injection, 20% with line-level pre-emption); '
             'non-trivial = at least two threads were runnable at some '
             'decision; distinct = distinct digests of the full event trace '
